@@ -57,7 +57,26 @@ type InstC struct {
 	Kind string `json:"kind"` // counter | updown | ocounter (observable counter: its callback observes 1 for every stream)
 	Num  string `json:"num"`  // int64 | float64
 	Late bool   `json:"late"` // created by the first recorder that uses it (while collections run)
+	Unit string `json:"unit"`
+	Desc string `json:"desc"`
+	// AliasOf: this entry is a second request for instrument AliasOf with identical parameters (Name may differ in
+	// letter case only): documented to return the same instrument -- measurements through both handles add up in one stream
+	AliasOf *int `json:"aliasOf,omitempty"`
 }
+
+// identity under which the application sees an instrument's data: collected metrics are projected by
+// (name (case-insensitive), monotonic = counter / not = up-down counter, number type, unit, description)
+func identity(name string, mono bool, num, unit, desc string) string {
+	k := "updown"
+	if mono {
+		k = "counter"
+	}
+	return strings.ToLower(name) + "|" + k + "|" + num + "|" + unit + "|" + desc
+}
+func (ic InstC) identity() string {
+	return identity(ic.Name, ic.Kind != "updown", ic.Num, ic.Unit, ic.Desc)
+}
+
 type StreamC struct {
 	Key  string `json:"key"`
 	Inst int    `json:"inst"`
@@ -68,6 +87,7 @@ type StreamC struct {
 type AddC struct {
 	Key string `json:"key"`
 	I   int    `json:"i"`
+	Via *int   `json:"via,omitempty"` // instrument entry whose handle records it (default: the stream's own; else an alias)
 }
 type CallerC struct {
 	Name     string `json:"name"`
@@ -170,7 +190,8 @@ type streamInfo struct {
 }
 
 type projector struct {
-	streams map[string]map[int]*streamInfo // instrument name -> attr value -> stream
+	streams map[string]map[int]*streamInfo // instrument identity -> attr value -> stream
+	names   map[string]bool                // lower-case names of the scenario's instruments
 }
 
 var big4 = big.NewInt(4)
@@ -200,9 +221,20 @@ func (p *projector) project(rm *metricdata.ResourceMetrics) (pts []pt, ivs []ivT
 	ivs = []ivT{}
 	for _, sm := range rm.ScopeMetrics {
 		for _, md := range sm.Metrics {
-			byAttr, known := p.streams[md.Name]
-			if !known {
+			if !p.names[strings.ToLower(md.Name)] {
 				continue // the callback gate instrument (never reports) or foreign data
+			}
+			ident := ""
+			switch d := md.Data.(type) {
+			case metricdata.Sum[int64]:
+				ident = identity(md.Name, d.IsMonotonic, "int64", md.Unit, md.Description)
+			case metricdata.Sum[float64]:
+				ident = identity(md.Name, d.IsMonotonic, "float64", md.Unit, md.Description)
+			}
+			byAttr, known := p.streams[ident]
+			if !known {
+				bad = true // data under one of our names but under an identity the application never requested
+				continue
 			}
 			seen := map[[2]int64]bool{}
 			one := func(set attribute.Set, st, t time.Time, v *big.Int, okv bool) {
@@ -232,7 +264,7 @@ func (p *projector) project(rm *metricdata.ResourceMetrics) (pts []pt, ivs []ivT
 				k := [2]int64{st.UnixNano(), t.UnixNano()}
 				if !seen[k] {
 					seen[k] = true
-					ivs = append(ivs, ivT{inst: md.Name, st: st, t: t})
+					ivs = append(ivs, ivT{inst: ident, st: st, t: t})
 				}
 			}
 			switch d := md.Data.(type) {
@@ -362,14 +394,17 @@ func runScenario(scn int, sc Scenario, tw *vh.TraceWriter, res *vh.Result) {
 		nadds += len(r)
 	}
 	log := newLog(4*nadds + 65536)
-	proj := &projector{streams: map[string]map[int]*streamInfo{}}
+	proj := &projector{streams: map[string]map[int]*streamInfo{}, names: map[string]bool{}}
+	for _, ic := range sc.Insts {
+		proj.names[strings.ToLower(ic.Name)] = true
+	}
 	infos := map[string]*streamInfo{}
 	for _, s := range sc.Streams {
 		si := &streamInfo{key: s.Key, n: s.N, neg: map[int]bool{}}
 		for _, i := range s.Neg {
 			si.neg[i] = true
 		}
-		name := sc.Insts[s.Inst].Name
+		name := sc.Insts[s.Inst].identity()
 		if proj.streams[name] == nil {
 			proj.streams[name] = map[int]*streamInfo{}
 		}
@@ -456,16 +491,21 @@ func runScenario(scn int, sc Scenario, tw *vh.TraceWriter, res *vh.Result) {
 	insts := make([]*instH, len(sc.Insts))
 	mk := func(i int, h *instH) {
 		ic := sc.Insts[i]
+		if ic.AliasOf != nil { // the identical request: parameters of the original, only the letter case of the name may differ
+			name := ic.Name
+			ic = sc.Insts[*ic.AliasOf]
+			ic.Name = name
+		}
 		var err error
 		switch {
 		case ic.Kind == "counter" && ic.Num == "int64":
-			h.i64, err = meter.Int64Counter(ic.Name)
+			h.i64, err = meter.Int64Counter(ic.Name, metric.WithUnit(ic.Unit), metric.WithDescription(ic.Desc))
 		case ic.Kind == "counter":
-			h.f64, err = meter.Float64Counter(ic.Name)
+			h.f64, err = meter.Float64Counter(ic.Name, metric.WithUnit(ic.Unit), metric.WithDescription(ic.Desc))
 		case ic.Num == "int64":
-			h.u64, err = meter.Int64UpDownCounter(ic.Name)
+			h.u64, err = meter.Int64UpDownCounter(ic.Name, metric.WithUnit(ic.Unit), metric.WithDescription(ic.Desc))
 		default:
-			h.uf64, err = meter.Float64UpDownCounter(ic.Name)
+			h.uf64, err = meter.Float64UpDownCounter(ic.Name, metric.WithUnit(ic.Unit), metric.WithDescription(ic.Desc))
 		}
 		if err != nil && partial {
 			// documented: creation returns a usable instrument alongside the error; the application carries on with it
@@ -653,14 +693,18 @@ func runScenario(scn int, sc Scenario, tw *vh.TraceWriter, res *vh.Result) {
 			own := map[int]*instH{}
 			for k, a := range adds {
 				s := streamOf[a.Key]
-				h := insts[s.Inst]
-				if sc.OwnHandles { // every recorder asks the meter for its own handle (same aggregator through the cache)
+				hidx := s.Inst
+				if a.Via != nil {
+					hidx = *a.Via
+				}
+				h := insts[hidx]
+				if sc.OwnHandles && a.Via == nil { // every recorder asks the meter for its own handle (same aggregator through the cache)
 					if own[s.Inst] == nil {
 						own[s.Inst] = &instH{}
 					}
 					h = own[s.Inst]
 				}
-				h.once.Do(func() { mk(s.Inst, h) })
+				h.once.Do(func() { mk(hidx, h) })
 				ctx := context.Background()
 				gate := ""
 				if !sc.Storm {
@@ -1293,9 +1337,101 @@ func partialScenario(r *rand.Rand) Scenario {
 	return sc
 }
 
+// identScenario: several instruments of one meter whose identities collide partially (same name; different number
+// type / kind / unit / description: distinct streams that must all keep exporting) plus identical requests (same
+// stream, measurements add up).  Created sequentially at set-up, or lazily by the recorder goroutines (a short
+// concurrent creation race), then every handle records and every reader collects.
+func identScenario(r *rand.Rand, res *vh.Result) Scenario {
+	sc := Scenario{Seed: r.Int63(), Filter: r.Intn(3) == 0, Name: "ident"}
+	nr := 1 + r.Intn(3)
+	for i := 0; i < nr; i++ {
+		rc := ReaderC{Name: fmt.Sprintf("r%d", i+1), Temp: []string{"delta", "cumulative"}[r.Intn(2)], Kind: "manual", ExpMode: "ok"}
+		if r.Intn(6) == 0 {
+			rc.Kind = "periodic"
+		}
+		sc.Readers = append(sc.Readers, rc)
+	}
+	late := r.Intn(2) == 0
+	base := InstC{Name: "req", Kind: []string{"counter", "updown"}[r.Intn(2)], Num: []string{"int64", "float64"}[r.Intn(2)], Late: late}
+	seen := map[string]bool{base.identity(): true}
+	sc.Insts = []InstC{base}
+	for n := 1 + r.Intn(3); len(sc.Insts) <= n; {
+		ic := sc.Insts[r.Intn(len(sc.Insts))] // vary one dimension of an existing one
+		ic.AliasOf = nil
+		dim := []string{"num", "num", "kind", "kind", "unit", "desc"}[r.Intn(6)]
+		switch dim {
+		case "num":
+			ic.Num = map[string]string{"int64": "float64", "float64": "int64"}[ic.Num]
+		case "kind":
+			ic.Kind = map[string]string{"counter": "updown", "updown": "counter"}[ic.Kind]
+		case "unit":
+			ic.Unit = map[string]string{"": "ms", "ms": ""}[ic.Unit]
+		default:
+			ic.Desc = map[string]string{"": "d2", "d2": ""}[ic.Desc]
+		}
+		if !seen[ic.identity()] {
+			seen[ic.identity()] = true
+			sc.Insts = append(sc.Insts, ic)
+			res.Count("ident_collision_"+dim, 1)
+		}
+	}
+	ncanon := len(sc.Insts)
+	aliases := map[int][]int{}
+	for n := r.Intn(3); n > 0; n-- {
+		of := r.Intn(ncanon)
+		ic := sc.Insts[of]
+		ic.Name = []string{"req", "req", "Req", "REQ"}[r.Intn(4)]
+		ic.AliasOf = &of
+		aliases[of] = append(aliases[of], len(sc.Insts))
+		sc.Insts = append(sc.Insts, ic)
+		res.Count("ident_identical_requests", 1)
+	}
+	if late {
+		res.Count("ident_creation_races", 1)
+	}
+	ng := 2 + r.Intn(2)
+	sc.Recs = make([][]AddC, ng)
+	nk := 0
+	for i := 0; i < ncanon; i++ {
+		for a := 0; a < 1+r.Intn(2); a++ {
+			nk++
+			s := StreamC{Key: fmt.Sprintf("k%d", nk), Inst: i, Attr: a + 1, N: 2 + r.Intn(4), Neg: []int{}}
+			for j := 0; j < s.N; j++ {
+				if sc.Insts[i].Kind == "updown" && r.Intn(3) == 0 {
+					s.Neg = append(s.Neg, j)
+				}
+				ad := AddC{Key: s.Key, I: j}
+				if al := aliases[i]; len(al) > 0 && r.Intn(2) == 0 {
+					v := al[r.Intn(len(al))]
+					ad.Via = &v
+				}
+				g := r.Intn(ng)
+				sc.Recs[g] = append(sc.Recs[g], ad)
+			}
+			sc.Streams = append(sc.Streams, s)
+		}
+	}
+	for g := range sc.Recs {
+		r.Shuffle(len(sc.Recs[g]), func(a, b int) { sc.Recs[g][a], sc.Recs[g][b] = sc.Recs[g][b], sc.Recs[g][a] })
+		if sc.Recs[g] == nil {
+			sc.Recs[g] = []AddC{}
+		}
+	}
+	sc.Cols = []CallerC{}
+	sc.Flushers = []CallerC{}
+	for i, rc := range sc.Readers {
+		sc.Cols = append(sc.Cols, CallerC{Name: fmt.Sprintf("c%d", i+1), Reader: rc.Name, N: 1 + r.Intn(3), DelayUs: r.Intn(300)})
+		if rc.Kind == "periodic" {
+			sc.Flushers = append(sc.Flushers, CallerC{Name: "f_" + rc.Name, Reader: rc.Name, N: 1 + r.Intn(2), DelayUs: r.Intn(300)})
+		}
+	}
+	sc.Stoppers = []CallerC{}
+	return sc
+}
+
 func main() {
 	if len(os.Args) < 2 {
-		fmt.Println("usage: c02 random|partial|scripts ...")
+		fmt.Println("usage: c02 random|partial|ident|scripts ...")
 		os.Exit(3)
 	}
 	fs := flag.NewFlagSet(os.Args[1], flag.ExitOnError)
@@ -1344,6 +1480,12 @@ func main() {
 					}
 				}
 			}
+		}
+	case "ident":
+		r := rand.New(rand.NewSource(vh.Seed()*104729 + *seedOff))
+		for i := 0; i < *n; i++ {
+			runScenario(i, identScenario(r, res), tw, res)
+			res.Executed++
 		}
 	case "scripts":
 		b, err := os.ReadFile(*in)
